@@ -156,7 +156,9 @@ func (p *Program) RunJob(j Job) (res JobResult) {
 		res.Ends[pr.End.String()]++
 		res.Steps += pr.Steps
 		res.Decisions += len(pr.Trace)
-		if pr.End.IsInconclusive() {
+		if pr.End.IsInconclusive() && !(j.BudgetAsViolation && pr.End == endBudget) {
+			// (a path over the budget of a budget_as_violation harness is a candidate that the orchestrator decides by a
+			// native replay: violation, bound of the executor (then inconclusive), or - death_only - a program that runs on)
 			msg := pr.End.String() + ": " + firstLine(pr.Msg)
 			if len(res.Inconcl) < 20 {
 				res.Inconcl = append(res.Inconcl, msg)
